@@ -355,4 +355,42 @@ example : (feedIds 2 [] ["a", "b", "a", "c", "a"]).2 = [false, false, true, fals
 /-- the one-sided middlewares hand the other direction over untouched (source text, regenerated) -/
 theorem pass_through_pinned : passThroughActual = passThroughExpected := by decide
 
+/-- the receive-side window is client-side state: every server message passes and leaves it alone -/
+theorem recvUnique_server_inert (size : Nat) (st : MwSt) (m : ServerMsg) :
+    (Mw.recvUnique size).server st m = (st, some m) := by
+  cases m <;> rfl
+
+/-- so is the subscription quota -/
+theorem maxSubs_server_inert (n : Int) (st : MwSt) (m : ServerMsg) :
+    (Mw.maxSubs n).server st m = (st, some m) := by
+  cases m <;> rfl
+
+/-- a session history: client and server messages in any interleaving -/
+def runMixed (mw : Mw) (now : Int) : MwSt → List (Sum ClientMsg ServerMsg) → MwSt
+  | st, [] => st
+  | st, .inl c :: rest => runMixed mw now (mw.client st now c).1 rest
+  | st, .inr s :: rest => runMixed mw now (mw.server st s).1 rest
+
+def clientsOf : List (Sum ClientMsg ServerMsg) → List ClientMsg
+  | [] => []
+  | .inl c :: rest => c :: clientsOf rest
+  | .inr _ :: rest => clientsOf rest
+
+/-- **whatever the downstream handler answers, and whenever, the receive-side filter and the quota decide every
+    client message as if the server had been silent**: the state after a mixed history is the state after its client
+    messages alone (what seed C18-I breaks) -/
+theorem client_state_ignores_server (mw : Mw) (h : (∃ size, mw = .recvUnique size) ∨ (∃ n, mw = .maxSubs n))
+    (now : Int) (st : MwSt) (hist : List (Sum ClientMsg ServerMsg)) :
+    runMixed mw now st hist = runMixed mw now st ((clientsOf hist).map Sum.inl) := by
+  induction hist generalizing st with
+  | nil => rfl
+  | cons x rest ih =>
+    cases x with
+    | inl c => simp only [runMixed, clientsOf, List.map_cons]; exact ih _
+    | inr s =>
+      simp only [runMixed, clientsOf]
+      rcases h with ⟨size, rfl⟩ | ⟨n, rfl⟩
+      · rw [recvUnique_server_inert]; exact ih _
+      · rw [maxSubs_server_inert]; exact ih _
+
 end Moc.C18
